@@ -63,7 +63,7 @@ check('C06',
       design_ref='5.5')
 
 check('C01',
-      'Translation validation of the SQL emitted by the real generator: for every enumerated program (5 base model sets (plain, unique_together+index_together, Meta indexes+constraints, custom names with M2M/OneToOne, Text/PositiveInteger/Decimal/BigInteger/DateTime types) x single mutations and ordered pairs of a 46-entry alphabet; thorough adds seeded random sequences of length 3-4) the emitted statements are executed on a real SQLite database, its catalog is introspected and compared with the catalog of the evolved models created from scratch by Django; z3 decides, over all contents of 2 symbolic rows per table, whether the two catalogs accept exactly the same contents (NOT NULL, PK, unique incl. partial, CHECK, FK). Structural parts (tables, columns, plain indexes, FK targets) are compared directly. Four families of genuine defects are known findings identified by (base, mutation kinds, difference kinds) signatures.',
+      'Translation validation of the SQL emitted by the real generator: for every enumerated program (5 base model sets (plain, unique_together+index_together, Meta indexes+constraints, custom names with M2M/OneToOne, Text/PositiveInteger/Decimal/BigInteger/DateTime types) x single mutations and ordered pairs of a 46-entry alphabet; thorough adds seeded random sequences of length 3-4) the emitted statements are executed on a real SQLite database, its catalog is introspected and compared with the catalog of the evolved models created from scratch by Django; z3 decides, over all contents of 2 symbolic rows per table, whether the two catalogs accept exactly the same contents (NOT NULL, PK, unique incl. partial, CHECK, FK). Structural parts (tables, columns, plain indexes, FK targets) are compared directly. The acceptance predicate itself is validated per program against real SQLite on four fixed contents (valid, duplicated, all-NULL, dangling/negative). Four families of genuine defects are known findings identified by (base, mutation kinds, difference kinds) signatures.',
       'The quantifier over programs is enumerated, only the quantifier over table contents is decided by the solver. SQLite only; AUTOINCREMENT, collations, type affinity and index names are not compared; the evolved models come from the reference semantics in vlib/dbprog.py. Trusted: z3, vlib/sqlsmt.py (guarded by replaying every sat model against real SQLite), SQLite PRAGMA introspection.',
       'z3 acceptance-equivalence of introspected catalogs of the evolved vs freshly created database; sat models replayed on real SQLite', category='translation_validation', design_ref='5.1')
 
